@@ -9,9 +9,20 @@ Pkgs == UNION { [1..n -> Entries] : n \in 1..MaxEntries }
 Case(p, mode) == [entries |-> p, mode |-> mode, flat |-> mode # "plain",
             naive_escapes |-> ~Contained(Fs0, Run("naive", Fs0, p).fs),
             benign |-> Run("safe", Fs0, p).ok]
+\* chains of links, which need three entries whatever MaxEntries is: b leads outside, a leads to b by a plain relative
+\* name (harmless on its own), and something is put below a
+LinkE(p, t) == [comps |-> p, kind |-> "link", data |-> "", target |-> t]
+FileE(p) == [comps |-> p, kind |-> "file", data |-> "new", target |-> [abs |-> FALSE, comps |-> <<>>]]
+DirE(p) == [comps |-> p, kind |-> "dir", data |-> "", target |-> [abs |-> FALSE, comps |-> <<>>]]
+ChainPkgs == { <<LinkE(<<"b">>, t), LinkE(<<"a">>, [abs |-> FALSE, comps |-> <<"b">>]), x>> :
+                  t \in {[abs |-> FALSE, comps |-> <<"..", "out">>], [abs |-> TRUE, comps |-> <<"out">>]},
+                  x \in {FileE(<<"a", "b">>), FileE(<<"a", "sub", "x">>), FileE(<<"a", "victim">>), DirE(<<"a", "b">>),
+                         LinkE(<<"a", "victim">>, [abs |-> FALSE, comps |-> <<"b">>])} }
+             \cup { <<LinkE(<<"a">>, [abs |-> FALSE, comps |-> <<"b">>]), LinkE(<<"b">>, [abs |-> TRUE, comps |-> <<"out">>]), FileE(<<"a", "victim">>)>> }
 VARIABLE done
 GInit == done = FALSE /\ fs = Fs0 /\ todo = <<>> /\ ok = TRUE
 GNext == ~done /\ done' = TRUE /\ UNCHANGED <<fs, todo, ok>> /\ ndJsonSerialize(IOEnv.OUT, SetToSeq({Case(p, "plain") : p \in Pkgs} \cup {Case(p, "flat") : p \in {q \in Pkgs : \E i \in 1..Len(q) : Len(q[i].comps) > 1}}
-                                                    \cup {Case(p, "abs") : p \in {q \in Pkgs : Len(q) <= 2}}))
+                                                    \cup {Case(p, "abs") : p \in {q \in Pkgs : Len(q) <= 2}}
+                                                    \cup {Case(p, "plain") : p \in ChainPkgs} \cup {Case(p, "flat") : p \in ChainPkgs}))
 GSpec == GInit /\ [][GNext]_<<done, fs, todo, ok>>
 =============================================================================
